@@ -550,12 +550,27 @@ def panic_rule(rep, prog, cfg, res):
         rep.fail(rule, cfg + "/do_send", "client/mod.rs", "Client::do_send not found")
         return
     n_cc = 0
-    for fb in family(prog, prog.bodies[b.root]):
+    # the two halves may live in different private functions (`enqueue` creates the channel and queues, `do_send` awaits): the
+    # mappings are counted over the function that creates the channel, its private callers and their private callees
+    from ..common import with_private_callees
+    cgx = callgraph(prog)
+    starts = [prog.bodies[b.root]]
+    for cid in cgx.callers.get(b.root, ()):
+        cr = prog.bodies.get(prog.bodies[cid].root, prog.bodies[cid])
+        if cr.crate == "mpd_client" and not cr.raw.get("pub") and not cr.raw.get("exported") and cr not in starts:
+            starts.append(cr)
+    scope = []
+    for st0 in starts:
+        for fb in with_private_callees(prog, st0):
+            if fb not in scope:
+                scope.append(fb)
+    for fb in scope:
         for bb, i, s in fb.stmts():
             if s["k"] == "assign" and s["rv"]["k"] == "agg" and s["rv"].get("variant") == "ConnectionClosed" and s["rv"].get("adt_name", "").endswith("CommandError"):
                 n_cc += 1
     names = set()
-    for bb, t in b.calls():
-        names.update(callee_names(t))
+    for fb in scope:
+        for bb, t in fb.calls():
+            names.update(callee_names(t))
     rep.check(n_cc >= 2 and not any(n.endswith(("::unwrap", "::expect")) for n in names), rule, cfg + "/channel failures -> ConnectionClosed", b.loc(b.span),
               "a closed queue or a dropped responder is not mapped to CommandError::ConnectionClosed in Client::do_send (found %d mappings)" % n_cc)
